@@ -127,7 +127,13 @@ def check_convert(case, v):
         return v.fail("convert-raised", f"Quantity({x!r},{tu!r}).value({tv!r}) raised {e!r}")
     if not _close(got, exp):
         return v.fail("value", f"Quantity({x!r},{tu!r}).value({tv!r}) = {got!r}, expected {exp!r}")
-    q = Quantity(x, tu).to(tv)
+    # the same object asked repeatedly (a query must give x*F(u)/F(v) every time, also after a query in another unit)
+    q0 = Quantity(x, tu)
+    for unit, e in ((tv, exp), (tw, xa * fu / fw), (tv, exp)):
+        g = q0.value(unit)
+        if not _close(g, e):
+            return v.fail("value-repeat", f"q=Quantity({x!r},{tu!r}); repeated q.value({unit!r}) = {g!r}, expected {e!r}")
+    q = q0.to(tv)
     if not _close(q.value(), exp):
         return v.fail("to", f"Quantity({x!r},{tu!r}).to({tv!r}).value() = {q.value()!r}, expected {exp!r}")
     e = _units_match(q, vv)
